@@ -2082,3 +2082,7 @@ m("C05", "identifier-prefix-unmangled", C,
 m("C08", "identifier-prefix-unmangled", C,
   'return "__{}_{}".format(mangle(prefix), mangle(suffix or id(prefix)))',
   'return "__{}_{}".format(prefix, mangle(suffix or id(prefix)))')
+
+m("C12", "allocator-without-arguments", "utils.py",
+  "            inst = cls.__new__(new, *exc.args)",
+  "            inst = cls.__new__(new)")
